@@ -6,14 +6,18 @@ EXPLANATION = (
     "Proved in Coq for all queues (Props/C37.v, suffix _partial): every prefix is produced by exactly one decision "
     "(TotalOrder); every sub-sequence with its complement is produced by some valid decision string and, for "
     "distinguishable items, by at most one (NoOrder min_index pruning loses no subset and explores no schedule "
-    "twice); every pending snapshot version and the unchanged re-release are reachable (SingletonHook). "
+    "twice); every pending snapshot version and the unchanged re-release are reachable (SingletonHook); every per-key "
+    "combination for the keyed stream hooks and the keyed singleton, for every iteration order; uniformly every demanded "
+    "schedule of every modelled hook kind (C37_every_hook_schedule); run_hooks reaches every combination of per-hook "
+    "schedules that is not all-trivial (C37_run_hooks_every_combination); a model of LaunchedSim::step's choice reaches "
+    "every ready tick/observation by exactly one value and every order of independent ready ticks by exactly one string. "
     "Not proved: (1) that bolero's exhaustive driver enumerates every value of every requested range - an external "
     "crate, checked on every run only by comparing, on tiny configurations, the outcome SET (and the number of "
     "executions) reached by the real bolero exhaustive engine (same call sequence as CompiledSim::exhaustive) with "
     "the set the Coq model reaches by brute force over all decision strings, and with an independently enumerated "
-    "set of demanded schedules (spec_outcomes / spec_tick_outcomes in Sim/Exh.v); (2) completeness for keyed hooks, "
-    "run_hooks combinations ('every combination not all trivial') as theorems - only the bounded comparison; "
-    "(3) the order of ready ticks / observations (LaunchedSim::step) and end-to-end programs are not covered at all.")
+    "set of demanded schedules (spec_outcomes / spec_tick_outcomes in Sim/Exh.v); (2) uniqueness of the decision string "
+    "(no duplicate schedule) for keyed hooks and run_hooks as a theorem - only the bounded comparison of execution counts; "
+    "(3) the scheduler model is tied to LaunchedSim::step only through end-to-end outcome sets; TopLevel*/inline hooks.")
 
 
 def legit(h, force):
@@ -63,7 +67,11 @@ class C37(SimSpec):
     imports = ("From Coq Require Import List NArith.\nFrom HV Require Import Sim.Model Sim.Run Sim.Exh.\n"
                "Import ListNotations.")
     theorems = ["C37_total_every_prefix_partial", "C37_noorder_every_subset_partial",
-                "C37_noorder_no_duplicate_partial", "C37_single_every_version_partial"]
+                "C37_noorder_no_duplicate_partial", "C37_single_every_version_partial",
+                "C37_keyed_total_every_combination", "C37_keyed_noorder_every_combination",
+                "C37_ksingle_every_combination", "C37_every_hook_schedule",
+                "C37_run_hooks_every_combination", "C37_scheduler_every_choice",
+                "C37_scheduler_every_order"]
     level = "other"
     harness_shards = 4
     trusted_base = ["coqc 8.16.1 kernel (vm_compute used for the brute-force enumeration only)",
